@@ -153,6 +153,7 @@ class SimFile:
         self._label = label
         self._wcount = 0
         self._stamp = stamp_path    # files opened for writing get their mtime from the simulated clock
+        self._truncated = "w" in getattr(real, "mode", "") or "x" in getattr(real, "mode", "")
     def __getattr__(self, attr):
         return getattr(self._f, attr)
     def __enter__(self):
@@ -165,7 +166,8 @@ class SimFile:
         self._do_stamp()
         return r
     def _do_stamp(self):
-        if self._stamp and SIM is not None and STAMP_WRITES:
+        # like a real file system: the mtime only moves if the file was written
+        if self._stamp and SIM is not None and STAMP_WRITES and (self._wcount > 0 or self._truncated):
             SIM.stamp(self._stamp)
     def __iter__(self):
         return iter(self._f)
@@ -196,6 +198,7 @@ class SimFile:
             self._do_stamp()
         return r
     def truncate(self, *a):
+        self._truncated = True
         if SIM is not None:
             SIM.point("file.truncate", (self._label,))
         return self._f.truncate(*a)
